@@ -26,6 +26,16 @@ def r12(rng):
     return F.f12_from_coeffs([rng.randrange(Q) for _ in range(12)])
 
 
+def subfield_element(d, rng):
+    """a random element of the subfield of order q^d of Fq12 (d | 12): the trace of a random element down to it"""
+    x = r12(rng)
+    acc = F.F12_ZERO
+    for i in range(12 // d):
+        acc = F.f12_add(acc, F.f12_frobenius(x, d * i))
+    assert F.f12_frobenius(acc, d) == acc
+    return acc
+
+
 def structured(rng):
     z = [0] * 12
     out = [("zero", F.F12_ZERO), ("one", F.F12_ONE), ("-1", F.f12_from_coeffs([Q - 1] + [0] * 11))]
@@ -43,6 +53,9 @@ def structured(rng):
     c = [0] * 12
     c[6] = rng.randrange(1, Q)
     out.append(("c*w", F.f12_from_coeffs(c)))
+    # every proper subfield through its trace form (Fq3 and Fq4 are not coefficient patterns of the tower)
+    for d in (1, 2, 3, 4, 6):
+        out.append(("Fq%d:trace" % d if d > 1 else "Fq:trace", subfield_element(d, rng)))
     out.append(("sparse014", F.f12_from_coeffs([rng.randrange(Q), rng.randrange(Q), rng.randrange(Q), rng.randrange(Q), 0, 0, 0, 0, rng.randrange(Q), rng.randrange(Q), 0, 0])))
     return out
 
@@ -65,7 +78,15 @@ def run_shard(shard, tier, seed, wd, res):
         s.op("final_exp", e_)
         s.op("final_exp", s.op("fq12.mul", e_, e_))
         x_ = T(r12(rng))
-        s.op("final_exp", s.op("fq12.mul", s.op("fq12.conj", x_), s.op("fq12.inv", x_)))
+        u_ = s.op("fq12.mul", s.op("fq12.conj", x_), s.op("fq12.inv", x_))
+        s.op("final_exp", u_)
+        # proper-subfield multiples of unitary elements and of pairing values (the norm lies in a subfield, not = 1)
+        for d in (1, 2, 3, 4, 6):
+            sub = T(subfield_element(d, rng))
+            s.op("final_exp", s.op("fq12.mul", u_, sub))
+            s.op("final_exp", s.op("fq12.mul", e_, sub))
+            s.op("fq12.inv", s.op("fq12.mul", u_, sub))
+            s.op("fq12.inv", sub)
     n = 10 if tier == "quick" else 14
     for _ in range(n):
         f1, f2 = r12(rng), r12(rng)
@@ -74,13 +95,16 @@ def run_shard(shard, tier, seed, wd, res):
         c = s.op("final_exp", T(F.f12_mul(f1, f2)))
         s.op("fq12.eq", s.op("fq12.mul", a, b), c)
         # scaling by a proper-subfield element does not change the result
-        sub = rng.choice(structured(rng)[3:7])[1]
+        sub = rng.choice([x for x in structured(rng) if x[0].startswith("Fq")])[1]
         d = s.op("final_exp", T(F.f12_mul(f1, sub)))
         s.op("fq12.eq", a, d)
     H.monitor_script(__import__("props.c12", fromlist=["x"]), s.text(), BUILDS, wd, res, shard)
 
 
 def fclass(f):
+    for d in (1, 2, 3, 4, 6):
+        if not F.f12_is_zero(f) and F.f12_frobenius(f, d) == f:
+            return {1: "Fq", 2: "Fq2", 3: "Fq3", 4: "Fq4", 6: "Fq6"}[d]
     c = F.f12_coeffs(f)
     nz = [i for i, x in enumerate(c) if x]
     if not nz:
@@ -126,7 +150,7 @@ def judge(ctx, rec, res):
     if F.f12_pow(e, R) != F.F12_ONE:
         return "an r-th root of unity"
     kind = "relations"
-    if cl in ("Fq", "Fq2", "Fq6", "Fq4"):
+    if cl in ("Fq", "Fq2", "Fq3", "Fq6", "Fq4"):
         res.evals += 1
         kind = "subfield->1"
         if e != F.F12_ONE:
